@@ -20,6 +20,7 @@ import re
 
 _CODE = re.compile(r"\s*(?:[Nn]\s*(\d+)\s*)?([GgMmTt])\s*(\d+)(?:\.(\d+))?")
 _NUM = re.compile(r"[-+]?(?:\d+\.?\d*|\.\d+)")
+_EXP = re.compile(r"[eE][-+]?\d")
 
 # native length unit of all integer fields: 1e-4 mm
 NATIVE_PER_MM = 10000
@@ -32,7 +33,7 @@ class Reading(object):
     """Result of reading one command string."""
 
     __slots__ = ("text", "code", "sub", "letters", "values", "dup", "leftover", "valueless",
-                 "params")
+                 "params", "exponent")
 
     def __init__(self, text):
         self.text = text
@@ -44,12 +45,13 @@ class Reading(object):
         self.leftover = False   # characters that are neither words nor blanks
         self.valueless = []     # letters that appeared without a number
         self.params = ""        # raw text after the code, stripped
+        self.exponent = False   # a number is directly followed by an exponent part (1e-05)
 
     @property
     def wellFormed(self):
         """One code, distinct letters each with a plain decimal number, nothing left over."""
         return (self.code is not None and not self.dup and not self.leftover
-                and not self.valueless)
+                and not self.valueless and not self.exponent)
 
 
 def read(text):
@@ -81,6 +83,9 @@ def read(text):
             if num:
                 res.values[letter] = Fraction(num.group(0))
                 pos = num.end()
+                if _EXP.match(text, pos):
+                    # firmware stops reading here: the rest becomes a spurious E word
+                    res.exponent = True
             else:
                 res.valueless.append(letter)
                 res.values.pop(letter, None)
